@@ -14,6 +14,7 @@ mod latest;
 mod msghdr;
 mod radial;
 mod rda;
+mod s3;
 mod scan;
 mod search;
 mod sim;
@@ -32,6 +33,7 @@ fn main() {
     let args = Args::parse();
     match args.module.as_str() {
         "sweep" => sweep::run(&args),
+        "s3" => s3::run(&args),
         "total" => total::run(&args),
         "scan" => scan::run(&args),
         "radial" => radial::run(&args),
